@@ -83,8 +83,8 @@ def scenarios(tier, seed):
            for i in range(2 if tier == "quick" else 8)]
     # a slice whose written size exceeds the one-megabyte file-splitting threshold (3 boxes -> uneven chunks)
     out.append({"kind": "slicepf", "seed": seed * 1000 + 1150, "ndims": 3, "nf": 8, "nfiles": 2, "layout": "shuffled",
-                "n0": [192, 64, 8], "box": 64, "nlevels": 1, "normal": 2, "payload": "random", "ncombos": 1, "npos": 2,
-                "interior_only": True})
+                "n0": [320, 64, 8], "box": 64, "nlevels": 1, "normal": 2, "payload": "random", "ncombos": 1, "npos": 2,
+                "interior_only": True, "all_fields": True})       # 320*64*8 fields*8 bytes = 1.3 MB: 5 boxes in 2 files (3 + 2)
     return out
 
 
